@@ -325,7 +325,7 @@ func init() {
 			"(genesis+grants+gas = pools+accrued+queued+paid), non-negativity, per-validator share within 1+pool*1e-18 of pool*p/P, dust in [0,n*(1+pool*1e-18)], intake = min(remain+grants, initial>>floor(h/interval)), and claim payouts against the queued amounts. " +
 			"Non-trivial = a block that distributed a non-empty pool; distinct = (set size, number of distinct powers, halving epoch).",
 		Assume: []string{"amounts <= 2^96; the harness plays CometBFT and supplies LastCommit from the validator set of the previous height"},
-		Cases:  func(tier string) int { return map[string]int{"quick": 32, "thorough": 180}[tier] },
+		Cases:  func(tier string) int { return map[string]int{"quick": 48, "thorough": 180}[tier] },
 		Run:    func(c *vc.Ctx, i int) { c12History(c, i) },
 	})
 }
